@@ -1,6 +1,6 @@
 (* C14  DUART status and interrupt requests always tell the truth. *)
 From Coq Require Import ZArith List Bool.
-From Dmd Require Import Model.Bits Model.Fifo Model.Mem Model.Duart Proofs.PortProofs Proofs.DuartProofs Gen.GenDuart Proofs.RegMapTie.
+From Dmd Require Import Model.Bits Model.Fifo Model.Mem Model.Duart Proofs.PortProofs Proofs.DuartProofs Gen.GenDuart Proofs.RegMapTie Gen.GenPort Proofs.PortTie.
 Open Scope Z_scope.
 
 (* the status invariant holds after every history of guest accesses to any register offset with any value,
@@ -119,3 +119,16 @@ Theorem C14_constants_are_source_constants :
   /\ (gd_CR_RST_MR, gd_CR_RST_BRK, gd_CR_START_BRK, gd_CR_STOP_BRK) = (1, 5, 6, 7).
 Proof. exact duart_constants_are_source_constants. Qed.
 Print Assumptions C14_constants_are_source_constants.
+
+(* the port helper functions the status theorems rest on are the source's: Gen/GenPort.v is their statement-by-statement
+   translation from /repo/src/duart.rs, regenerated on every run *)
+Theorem C14_port_helpers_are_source_functions :
+  forall (A : Type) (p : port A),
+    enable_tx p = g_enable_tx p /\ disable_tx p = g_disable_tx p
+    /\ enable_rx p = g_enable_rx p /\ disable_rx p = g_disable_rx p
+    /\ loopback p = g_loopback p /\ rx_enabled p = g_rx_enabled p.
+Proof.
+  intros A p. repeat apply conj; [apply enable_tx_is_source | apply disable_tx_is_source | apply enable_rx_is_source
+                            | apply disable_rx_is_source | apply loopback_is_source | apply rx_enabled_is_source].
+Qed.
+Print Assumptions C14_port_helpers_are_source_functions.
